@@ -582,9 +582,91 @@ def reuse_cases(tier):
     return cases
 
 
+def numpy_integer_cases(tier):
+    """dims, sizes and indices that are NumPy integers (what np.argmax, a shape arithmetic or a config loader hands over) instead of Python ints: a wrapper may refuse the type at
+    forward, but whatever it accepts must have the exact VJP"""
+    f = F()
+    i = np.int64
+    cases = []
+    forms = [("functional.sum", lambda T: f.sum(T["a"], i(0))), ("functional.sum", lambda T: f.sum(T["a"], i(-1), True)), ("functional.sum", lambda T: f.sum(T["a"], (i(0), i(1)))),
+             ("functional.mean", lambda T: f.mean(T["a"], i(0))), ("functional.mean", lambda T: f.mean(T["a"], i(-1), True)), ("functional.mean", lambda T: f.mean(T["a"], (i(0), i(-1)))),
+             ("functional.mean", lambda T: f.mean(T["a"], np.int32(1))),
+             ("functional.max", lambda T: f.max(T["a"], i(1))), ("functional.min", lambda T: f.min(T["a"], i(-2), True)),
+             ("functional.squeeze", lambda T: f.squeeze(f.unsqueeze(T["a"], i(1)), i(1))), ("functional.transpose", lambda T: f.transpose(T["a"], i(0), i(-1))),
+             ("functional.movedim", lambda T: f.movedim(T["a"], i(0), i(1))), ("functional.flatten", lambda T: f.flatten(T["a"], i(0), i(1))),
+             ("functional.unbind", lambda T: f.unbind(T["a"], i(1))[1]), ("functional.concat", lambda T: f.concat([T["a"], T["a"]], i(1))), ("functional.stack", lambda T: f.stack([T["a"], T["a"]], i(0))),
+             ("functional.unfold_dim", lambda T: f.unfold_dim(T["a"], i(1), i(2), i(1))), ("functional.reshape", lambda T: f.reshape(T["a"], (i(3), i(2)))),
+             ("Tensor.__getitem__", lambda T: T["a"][i(1)]), ("Tensor.__getitem__", lambda T: T["a"][i(0), i(-1)]), ("Tensor.__getitem__", lambda T: T["a"][i(0):i(2), ::i(2)]),
+             ("functional.pow", lambda T: f.pow(T["a"], i(2)) if hasattr(f, "pow") else T["a"] ** i(2)), ("Tensor.__pow__", lambda T: T["a"] ** np.float64(2.0)),
+             ("Tensor.__mul__", lambda T: T["a"] * np.float32(1.5))]          # (a NumPy scalar on the LEFT of an operator is NumPy's dispatch, not the library's: the result is an ndarray of objects, no tensor op is involved)
+    for k, (api, fn) in enumerate(forms):
+        cases.append(VCase(api, {"op": api, "shape": (2, 3), "numpy_scalar_arguments": True, "form": k}, [Leaf("a", (2, 3))], lambda T, K, fn=fn: fn(T)))
+    return cases
+
+
+def mutated_argument_cases(tier):
+    """the caller changes a MUTABLE argument (an index list / array, the list of operands of a join, a list of dims or of extents) after the forward call and before backward:
+    the recorded operation is the one the forward computed, so the gradient must not follow the later content of the caller's object"""
+    f = F()
+    cases = []
+
+    def idx_list(T, K):
+        idx = [0, 1]
+        y = T["a"][idx]
+        idx[0] = 2
+        return y
+
+    def idx_array(T, K):
+        idx = np.array([2, 0])
+        y = T["a"][idx]
+        idx[:] = 1
+        return y
+
+    def idx_pair(T, K):
+        rows, cols = [0, 1], [2, 0]
+        y = T["a"][rows, cols]
+        rows.reverse()
+        return y
+
+    def join(fn, how):
+        def build(T, K):
+            parts = [T["a"], T["b"], T["c"]]
+            y = fn(parts, 0)
+            if how == "reversed":
+                parts.reverse()
+            elif how == "cleared":
+                parts.clear()
+            else:
+                parts[0] = T["c"]
+            return y
+        return build
+
+    def dims_list(T, K):
+        dims = [0]
+        y = f.sum(T["a"], dims) if True else None
+        dims[0] = 1
+        return y
+
+    def shape_list(T, K):
+        shp = [3, 3]
+        y = f.reshape(T["a"], shp)
+        shp[0], shp[1] = 9, 1
+        return y
+    A = lambda: Leaf("a", (3, 3))
+    for name, api, build in (("index list changed after the forward", "Tensor.__getitem__", idx_list), ("index array overwritten after the forward", "Tensor.__getitem__", idx_array),
+                             ("one of two index lists reversed after the forward", "Tensor.__getitem__", idx_pair), ("list of dims changed after the forward", "functional.sum", dims_list),
+                             ("list of extents changed after the forward", "functional.reshape", shape_list)):
+        cases.append(VCase(api, {"op": api, "argument_mutated_after_forward": name}, [A()], build))
+    for api, fn in (("functional.concat", f.concat), ("functional.stack", f.stack)):
+        for how in ("reversed", "cleared", "entry replaced"):
+            cases.append(VCase(api, {"op": api, "argument_mutated_after_forward": "operand list " + how},
+                               [Leaf("a", (2, 2)), Leaf("b", (2, 2)), Leaf("c", (2, 2))], join(fn, how)))
+    return cases
+
+
 def all_cases(tier="quick"):
     cases = []
-    for g in (binary_cases, matmul_cases, unary_cases, slice_cases, join_cases, reduce_cases, view_cases, zero_extent_cases, reuse_cases, method_view_cases):
+    for g in (binary_cases, matmul_cases, unary_cases, slice_cases, join_cases, reduce_cases, view_cases, zero_extent_cases, reuse_cases, method_view_cases, numpy_integer_cases, mutated_argument_cases):
         cases.extend(g(tier))
     cases.extend(layout_variants(cases, tier))
     return cases
